@@ -240,7 +240,17 @@ def run_case(ctx, i, rng):
         for opts in optlist:
             f = os.path.join(d, "out.v")
             try:
-                sdn.compose(n, f, **opts)
+                if rng.random() < 0.15:
+                    # the writer class itself, with its documented bottom-to-top order (sdn.compose does not pass that option on)
+                    from spydrnet.composers.verilog.composer import Composer
+                    w_ = Composer(definition_list=opts.get("definition_list"), write_blackbox=opts.get("write_blackbox", True),
+                                  defparam=opts.get("defparam", False), reverse=True)
+                    w_.run(n, file_out=f)
+                    if getattr(w_, "file", None) is not None and not w_.file.closed:
+                        w_.file.close()
+                    ctx.count("written_bottom_to_top")
+                else:
+                    sdn.compose(n, f, **opts)
             except Exception as ex:  # noqa: BLE001
                 fr = probes.innermost_frame(ex) or ""
                 if rename_flat and isinstance(ex, AssertionError) and "multiple cables appear to be connected to a single assignment" in str(ex):
